@@ -20,6 +20,8 @@ tier = sys.argv[3] if len(sys.argv) > 3 else "quick"
 st = subprocess.run(["git", "-C", "/repo", "status", "--porcelain"], capture_output=True, text=True).stdout.strip()
 if st:
     print("refusing: /repo has uncommitted changes:\n" + st); sys.exit(3)
+evp = os.path.join(root, "evidence", f"{prop}.json")
+saved_ev = open(evp).read() if os.path.exists(evp) else None
 try:
     if revert:
         d = subprocess.run(["git", "-C", "/repo", "show", revert], capture_output=True, text=True).stdout
@@ -48,5 +50,7 @@ try:
         print("   ", l[:300])
     print("   ...", out.splitlines()[-1][:300] if out.splitlines() else "")
 finally:
+    if saved_ev is not None:
+        open(evp, "w").write(saved_ev)
     subprocess.run(["git", "-C", "/repo", "reset", "-q", "--hard", "HEAD"])
     subprocess.run(["git", "-C", "/repo", "clean", "-fdq"])
